@@ -6,7 +6,10 @@ On the wire a length-of field holds the number of bytes its target's encoding oc
 its own width and the configured order, whatever the caller stored (`length_value`,
 `length_ignores_caller`); the number is exactly what the target's encoding appends
 (`target_bytes`).  By `enc_sound` (C01) every accepted emitted encoder writes these very
-bytes, through its slot / mark / patch sequence.
+bytes, through its slot / mark / patch sequence — wherever the length field stands before its target: the
+validator (`Conforms.confFieldsE`, state `Pending`) follows the slot written at the length field, the ordinary
+steps of the fields in between, and `mark; target; mark; patch` at the target, and `enc_sound` covers all of it
+(messages in which no checksum field lies between the length field and the end of its target, `lenSafe`).
 -/
 namespace FinProtoc.Props
 open FinProtoc FinProtoc.IR FinProtoc.Conforms FinProtoc.Wire
@@ -38,5 +41,41 @@ theorem emitted_length (S : Schema) (P : Prog) (hconf : confEnc S P = true) (reg
 
 /-- non-vacuity: in the example of C01 the slot holds 10 = |Logon payload| although the caller stored 999 -/
 example : Wire.lookupSize exS ((exS.find "Msg").get!.fields) exV "Body" = some 10 := by decide
+
+/-! Non-vacuity for a length field that is NOT directly followed by its target: two ordinary fields (one of them a
+list) stand between `Len` and `Body`; the emitted slot / …steps… / mark / target / mark / patch sequence is accepted
+and produces the declared bytes (the caller's 999 is ignored, the slot ends up holding 10). -/
+def farS : Schema :=
+  { cfg := { le := false, strPfx := .u8, listPfx := .u16, pad := Pad.default },
+    packets := [
+      { name := "Msg", root := true, fields := [
+          { name := "Kind", kind := .scalar .u16 },
+          { name := "Len", kind := .lengthOf .u32 "Body" },
+          { name := "Seq", kind := .scalar .u8 },
+          { name := "Tags", kind := .dyn, rep := true },
+          { name := "Body", kind := .matchOn "Kind" [(.int 1, "Logon")] }] },
+      { name := "Logon", fields := [
+          { name := "User", kind := .fixed 4 { ch := 48, left := true } },
+          { name := "Tags", kind := .dyn, rep := true }] }] }
+
+def farP : Prog :=
+  { structs := [
+      { name := "Msg", members := [⟨"Kind", "uint16"⟩, ⟨"Len", "uint32"⟩, ⟨"Seq", "uint8"⟩, ⟨"Tags", "[]string"⟩, ⟨"Body", "codec.BinaryCodec"⟩],
+        enc := [.scalar 2 false 0, .slot 4 false "bodyPos", .scalar 1 false 2, .list 2 false (.string 1 false .unsigned) 3,
+                .mark "bodyStart", .dynamic 4, .mark "bodyEnd", .patch 4 false "bodyPos" "bodyStart" "bodyEnd" (some 4)],
+        dec := [] },
+      { name := "Logon", members := [⟨"User", "string"⟩, ⟨"Tags", "[]string"⟩],
+        enc := [.fixed 4 (some { ch := 48, left := true }) 0, .list 2 false (.string 1 false .unsigned) 1],
+        dec := [] }],
+    tables := [] }
+
+def farV : List Val := [.int 1, .int 999, .int 7, .list [.str [120]], .dyn "Logon" [.str [65, 66], .list [.str [104, 105], .str []]]]
+
+example : confEnc farS farP = true := by decide
+example : lenSafeVal farS (.obj "Msg") (.struct farV) = true := by decide
+example : Wire.enc farS (fun _ => none) "Msg" farV [] =
+    some [0, 1, 0, 0, 0, 10, 7, 0, 1, 1, 120, 48, 48, 65, 66, 0, 2, 2, 104, 105, 0] := by decide
+example : encStruct farP (fun _ => none) 3 "Msg" farV [] =
+    some [0, 1, 0, 0, 0, 10, 7, 0, 1, 1, 120, 48, 48, 65, 66, 0, 2, 2, 104, 105, 0] := by decide
 
 end FinProtoc.Props
